@@ -8,8 +8,8 @@
    Specification: RH.Lex.LexSpec (slice16, lexeme_ok, relex_prop). *)
 From Coq Require Import List NArith Arith Bool.
 Import ListNotations.
-From RH Require Import Text.Contents Text.Reader Text.ReaderProofs Lex.LangLexer Lex.LexSpec
-  Lex.LangLexerProofs Lex.C11Examples.
+From RH Require Import Text.Contents Text.ContentsProofs Text.Reader Text.ReaderProofs Text.ReaderInv
+  Lex.LangLexer Lex.LexSpec Lex.LangLexerProofs Lex.LangLexerSlices Lex.C11Examples.
 Open Scope N_scope.
 
 (* (a) The tokenizer terminates on every input (regression theorem of finding F5): with fuel
@@ -28,6 +28,32 @@ Proof. intros d kws F HF fuel t r t' H. exact (proj1 (proj2 (tk_pop_props d kws 
 Theorem C11_lex_old_refuted : lex_all_old [120; 8364] = Aborted OutOfFuel.
 Proof. exact lex_old_refuted. Qed.
 
+(* (b) Reader invariant: `idx` (UTF-8 bytes) and `character` (UTF-16 units) denote the same character
+   boundary of line `line`.  It holds initially, every pop preserves it, and under it get_char never
+   reads inside a multi-byte character (the undefined-behaviour outcome GBad of the model). *)
+Theorem C11_reader_inv_start : forall d, RInv d rstart.
+Proof. exact rinv_start. Qed.
+Theorem C11_reader_inv_preserved : forall d st c,
+  RInv d st -> get_char d st = GChar c -> RInv d (skip_char st c).
+Proof. exact rinv_skip. Qed.
+Theorem C11_reader_inv_reachable : forall d st st', adv d st st' -> RInv d st -> RInv d st'.
+Proof. exact rinv_adv. Qed.
+Theorem C11_reader_never_bad : forall d st, RInv d st -> get_char d st <> GBad.
+Proof. exact rinv_not_bad. Qed.
+(* the characters popped between two reader states are the text between their two UTF-16 positions
+   (slice16: lines split at LF/CR/CRLF, columns in UTF-16 units; defined without the reader) *)
+Theorem C11_consumed_is_slice : forall s l st st',
+  RInv (split_lines s) st -> run (split_lines s) l st st' ->
+  l = slice_of_text s (r_pos st) (r_pos st').
+Proof. exact consumed_is_slice_text. Qed.
+(* parse_bit_string re-reads the literal through value_at(line, start column, end column): for
+   Latin-1 text consumed on one line it returns exactly the consumed characters (no `unwrap` panic) *)
+Theorem C11_bit_string_value_at : forall d, Forall lf_last d -> forall l st st',
+  RInv d st -> run d l st st' -> fst (r_pos st) = fst (r_pos st') -> l <> [] ->
+  Forall (fun c => c < 256) l ->
+  value_at d (fst (r_pos st')) (snd (r_pos st)) (snd (r_pos st')) = Some l.
+Proof. exact value_at_consumed. Qed.
+
 (* (c) Token ranges are well-ordered (start < end), increasing and non-overlapping. *)
 Theorem C11_token_ranges_ordered : forall s toks diags,
   lex_all s = Done toks diags -> ranges_sorted (0, 0) toks.
@@ -35,6 +61,31 @@ Proof. exact token_ranges_ordered. Qed.
 Theorem C11_token_ranges_ordered_gen : forall kws fuel s toks diags,
   (length s < fuel)%nat -> lex_gen kws true fuel s = Done toks diags -> ranges_sorted (0, 0) toks.
 Proof. exact token_ranges_ordered_gen. Qed.
+
+(* (d) partial — token_text_exact_partial: the range of every token is delimited by two character
+   boundaries of the text (reader states satisfying the invariant), and the text between the two
+   positions is exactly the non-empty string of characters the reader consumed from the token's
+   start to its end.
+   NOT proved (explored on every run by the harness oracle, see checks/c11.py), full statements:
+     token_text_exact : forall s toks diags, lex_all s = Done toks diags ->
+        Forall (fun t => lexeme_ok t (slice_of_text s (t_s t) (t_e t)) = true) toks.
+     relex : forall s toks diags, lex_all s = Done toks diags ->
+        Forall (fun t => relex_prop t (slice_of_text s (t_s t) (t_e t))) toks.
+     comments_between : leading/trailing comments lie between the neighbouring tokens.
+   What is missing for them: per arm of parse_token, that the consumed characters spell the lexeme
+   of the (kind, value) returned. *)
+Theorem C11_token_text_exact_partial : forall s toks diags,
+  lex_all s = Done toks diags -> Forall (tok_slice s) toks.
+Proof. exact token_slices_consumed. Qed.
+
+(* (f) Files are decoded as ISO-8859-1: iso_8859_1_to_utf8 followed by UTF-8 decoding is the identity
+   on code points 0..255, every character is one UTF-16 unit, so a column is a byte offset. *)
+Theorem C11_decode_latin1_id : forall bytes, Forall (fun b => b < 256) bytes -> decode_latin1 bytes = bytes.
+Proof. exact decode_latin1_id. Qed.
+Theorem C11_latin1_columns : forall (bytes : list N), Forall (fun b => b < 256) bytes ->
+  forall line pre suf, In line (split_lines (decode_latin1 bytes)) -> line = pre ++ suf ->
+    len16s pre = N.of_nat (length pre).
+Proof. exact latin1_columns. Qed.
 
 (* Non-vacuity: a three-line input with CRLF and a lone CR, a Latin-1 character in a string, a
    supplementary-plane character in a comment, bit strings and a based literal lexes to six
@@ -46,22 +97,40 @@ Example C11_example_lexes :
     Forall (fun t => relex_prop t (slice_of_text example_text (t_s t) (t_e t))) toks.
 Proof. exact example_lexes. Qed.
 
-(* (e) is FALSE for the current code on lexically erroneous input (open finding, reproduced on
-   the implementation): "1g.5" yields a real-valued literal with text "1" whose slice re-lexes to
-   an integer. *)
-Theorem C11_relex_refuted :
-  exists s toks ds t, lex_all s = Done toks ds /\ In t toks /\
-    ~ relex_prop t (slice_of_text s (t_s t) (t_e t)).
-Proof. exact relex_refuted. Qed.
+(* Finding F24 (fixed in /repo by 10bee32): with the pre-fix real-literal arm `1g.5` yields the
+   real-valued literal `1` for the range 0:0-0:1, whose slice re-lexes to an INTEGER literal:
+   "re-lexing the slice yields the same kind and value" was false.  The repaired code reports
+   the invalid character instead. *)
+Theorem C11_relex_old_refuted :
+  let s := [49; 103; 46; 53] in
+  exists st', parse_abstract_literal_old (split_lines s) 10 rstart = (Ok (KAbstractLiteral, VAbsReal [49]), st')
+    /\ slice_of_text s (0, 0) (r_pos st') = [49]
+    /\ exists t ds, lex_all [49] = Done [t] ds /\ t_kind t = KAbstractLiteral /\ t_val t <> VAbsReal [49].
+Proof. exact relex_old_refuted. Qed.
+Example C11_f24_fixed :
+  exists toks, lex_all [49; 103; 46; 53] = Done toks [TErr (0, 1) (0, 2) 2] /\
+    map t_kind toks = [KIdentifier; KDot; KAbstractLiteral].
+Proof. exact f24_fixed. Qed.
 
 Check C11_lex_total : forall s, lex_all s <> Aborted OutOfFuel.
+Check C11_token_text_exact_partial : forall s toks diags, lex_all s = Done toks diags -> Forall (tok_slice s) toks.
 Check C11_token_ranges_ordered : forall s toks diags, lex_all s = Done toks diags -> ranges_sorted (0, 0) toks.
 
 Print Assumptions C11_lex_total.
 Print Assumptions C11_lex_total_gen.
 Print Assumptions C11_pop_progress.
 Print Assumptions C11_lex_old_refuted.
+Print Assumptions C11_reader_inv_start.
+Print Assumptions C11_reader_inv_preserved.
+Print Assumptions C11_reader_inv_reachable.
+Print Assumptions C11_reader_never_bad.
+Print Assumptions C11_consumed_is_slice.
+Print Assumptions C11_bit_string_value_at.
+Print Assumptions C11_token_text_exact_partial.
+Print Assumptions C11_decode_latin1_id.
+Print Assumptions C11_latin1_columns.
 Print Assumptions C11_token_ranges_ordered.
 Print Assumptions C11_token_ranges_ordered_gen.
 Print Assumptions C11_example_lexes.
-Print Assumptions C11_relex_refuted.
+Print Assumptions C11_relex_old_refuted.
+Print Assumptions C11_f24_fixed.
